@@ -35,11 +35,13 @@ static std::string next_outcome(const char *src) {
   return o;
 }
 static void partial_fill(void *buf, size_t n, const char *src) {
-  // bytes of a failed or short fill: fresh device bytes that must never show up in a salt
+  // the bytes of a short delivery: fresh device bytes (on the unchanged tree a short delivery fails the source, so
+  // they never reach a salt; a tree that loops until the request is complete may use them)
   uint64_t x = 0xbadf111 ^ (g_rngdev.partials++ * 0x9e3779b97f4a7c15ULL);
   unsigned char *c = (unsigned char *)buf;
   for (size_t i = 0; i < n; i++) c[i] = (unsigned char)(splitmix64(x) | 1);
   ev(vfmt("entropy-partial src=%s n=%zu", src, n));
+  EntropyDev::get().note_partial(cur_task(), buf, n);   // real OS bytes too: a tree may keep them and ask for the rest
 }
 // returns bytes delivered (or -1 with errno)
 static long serve(const char *src, void *buf, size_t n, bool all_or_nothing) {
